@@ -67,13 +67,35 @@ def handler(p):
     return _RequestHandler(p, _LOGGER)
 
 
+class stock_recursion:
+    """Gives the code under test the recursion head-room it has in production: the interpreter's
+    stock limit (1000) counted from a server's shallow stack, not the harness's raised limit
+    counted from wherever the harness happens to call from."""
+    STOCK, SERVER_DEPTH = 1000, 12
+
+    def __enter__(self):
+        import sys
+        self.saved = sys.getrecursionlimit()
+        depth, f = 0, sys._getframe()
+        while f is not None:
+            depth, f = depth + 1, f.f_back
+        sys.setrecursionlimit(depth + self.STOCK - self.SERVER_DEPTH)
+        return self
+
+    def __exit__(self, *a):
+        import sys
+        sys.setrecursionlimit(self.saved)
+        return False
+
+
 def serve_line(h, line):
     """Feed one request line to the real request handler.
     Returns (raw_output_bytes, exception_or_None)."""
     wf = io.BytesIO()
     exc = None
     try:
-        h.handle("verif", io.BytesIO(line + b"\n"), wf)
+        with stock_recursion():
+            h.handle("verif", io.BytesIO(line + b"\n"), wf)
     except BaseException as e:   # noqa - includes the handler's shutdown signals
         if isinstance(e, (KeyboardInterrupt, SystemExit, MemoryError)) or \
                 type(e).__name__ in ("CaseTimeout", "Timeout", "Dead"):
@@ -98,7 +120,9 @@ def parse_reply(out):
 
 
 def request(p, req):
-    return p.handle_request(copy.deepcopy(req))
+    req = copy.deepcopy(req)
+    with stock_recursion():
+        return p.handle_request(req)
 
 
 # ------------------------------------------------------------------ nominal requests
